@@ -453,10 +453,17 @@ def main(ctx: Ctx):
                 ctx.broke('correspondence', 'Mro.remoteChoice vs RemotePickler', f'{name} remote={remote}: model {m}, observed flags {flags}')
 
     interleaved_registration(ctx)
+    # dumps(..., remote=False) of opt-in classes must restore like standard pickle also when attributes are guarded by descriptors
+    import c14
+    c14.descriptor_states(ctx)
 
 
 def replay(case):
     print(case)
+    if case.get('kind') == 'descriptor_state':
+        import c14
+        c14.replay(case)
+        return
     if case.get('kind') == 'interleaved_registration':
         class C:
             def case(self, *a, **k): pass
